@@ -14,7 +14,7 @@
 (* LibCopy / Sort: nothing shared, input frozen; an exception is admitted only    *)
 (* where the value TYPE-STATE of the pipeline makes the middleware inapplicable   *)
 (* (and even then the input must be frozen).                                      *)
-EXTENDS Naturals, Sequences, FiniteSets, TLC, Json, IOUtils
+EXTENDS Naturals, Sequences, FiniteSets, TLC, Json, IOUtils, Functions, SequencesExt
 Trace == JsonDeserialize(IOEnv.TRACE_FILE)
 VARIABLES tid
 N == Len(Trace)
@@ -67,6 +67,18 @@ Next ==
                               expected |-> [shared |-> 0, changed |-> FALSE, raised |-> Inapplicable(e.mw, e.types)]]))
        /\ tid' = tid + 1
     \/ /\ tid = N + 1
+       \* `functional` (whole-trace clause): a middleware (class + options = its table row `name`) applied to equal
+       \* libraries gives equal results, whichever object did it and whatever that object did before.  One fold over
+       \* the trace builds the map (name, input digest) -> result digest; an event that disagrees with the first one
+       \* recorded for its key is rejected.
+       /\ LET keyed == SelectSeq(Trace, LAMBDA e : "in_digest" \in DOMAIN e)
+              Key(e) == <<e.name, e.in_digest>>
+              firsts == FoldLeft(LAMBDA acc, e : IF Key(e) \in DOMAIN acc THEN acc ELSE (Key(e) :> e.out_digest) @@ acc,
+                                 <<>>, keyed)
+              bad == SelectSeq(keyed, LAMBDA e : firsts[Key(e)] # e.out_digest)
+          IN \A i \in DOMAIN bad :
+               PrintT(ToJson([reject |-> bad[i].id, at |-> 1, clause |-> "functional",
+                              expected |-> [same_result_as_first_event_with_this_middleware_and_input |-> firsts[Key(bad[i])]]]))
        /\ PrintT(ToJson([done |-> N]))
        /\ tid' = N + 2
 =============================================================================
